@@ -69,6 +69,13 @@ def insertNat (x : Nat) : List Nat → List Nat
 
 def sortNats (l : List Nat) : List Nat := l.foldr insertNat []
 
+/-- the wallet's member indexes -/
+def wallet (c : Case) : List Nat := List.range' 1 c.n
+
+/-- `announcer.UnreadyMembers(ready, wallet size)` -/
+def unready (c : Case) (ready : List Nat) : List Nat :=
+  (wallet c).filter (fun m => !ready.contains m)
+
 def holds (cs : Consts) (c : Case) (ls : List Listen) (r : Result) : Bool :=
   ls.all (fun l => l.lt == protoTimeout cs c l.k && l.included.all (fun m => 1 ≤ m && m ≤ c.n)) &&
   match r with
@@ -85,7 +92,7 @@ def holds (cs : Consts) (c : Case) (ls : List Listen) (r : Result) : Bool :=
         l.included.all (fun i => (conf i).any (· ≤ e)) &&
         l.included.any (fun i => (conf i).contains e) &&
         sortNats act == sortNats a.ready &&
-        sortNats inact == (List.range' 1 c.n).filter (fun m => !a.ready.contains m)
+        sortNats inact == sortNats (unready c a.ready)
 
 /-! ## Model of the loop's use of the done check
 
@@ -104,8 +111,6 @@ abbrev Selection := Nat → List Nat → List Nat
 /-- the message being signed (any constant; the harness uses 4242) -/
 def msgConst : Nat := 4242
 
-def wallet (c : Case) : List Nat := List.range' 1 c.n
-
 def attemptParams (cs : Consts) (c : Case) (sel : Selection) (k : Nat) (a : Attempt) : C35.Params :=
   ⟨wallet c, sel k a.ready, msgConst, k, protoTimeout cs c k⟩
 
@@ -120,9 +125,6 @@ def attemptMsgs (c : Case) (k : Nat) (a : Attempt) (included : List Nat) : Optio
     | none => none
     | some (e, s) => some (others ++ [⟨c.self, c.self, msgConst, k, s, e⟩])
   else some others
-
-def unready (c : Case) (ready : List Nat) : List Nat :=
-  (wallet c).filter (fun m => !ready.contains m)
 
 def runFrom (cs : Consts) (c : Case) (sel : Selection) : Nat → List Attempt → List Listen × Result
   | _, [] => ([], .err)
